@@ -319,7 +319,10 @@ def run(ctx):
     operands = [('number', 2.5), ('int', 3), ('zero', 0),
                 ('numtext', '3'), ('numtext-dec', '1.5'),
                 ('scitext', '2e1'), ('TRUE', True), ('FALSE', False),
-                ('blank', None), ('text', 'abc')]
+                ('blank', None), ('text', 'abc'),
+                # zero spelt as numeric text in its various forms
+                ('zerotext-0.0', '0.0'), ('zerotext-00', '00'),
+                ('zerotext-neg', '-0'), ('zerotext-sci', '0E+00')]
     ops = {'+': 'OP_ADD', '-': 'OP_SUB', '*': 'OP_MUL', '/': 'OP_DIV',
            '^': 'POWER', '&': 'CONCAT'}
     ftexts, fmeta = [], []
@@ -329,8 +332,9 @@ def run(ctx):
         for sym, fname in ops.items():
             if not mine():
                 continue
-            if sym == '/' and an == 'text' and bn in ('zero', 'FALSE',
-                                                      'blank'):
+            if sym == '/' and an == 'text' and (bn in ('zero', 'FALSE',
+                                                       'blank') or
+                                                bn.startswith('zerotext')):
                 continue      # two errors at once: which one wins is C07's
             try:
                 want = ('value', ref.to_norm(ref.binop(sym, a, b)))
@@ -576,6 +580,44 @@ def run(ctx):
                                             'observed': got,
                                             'expected': want},
                        group='user-function-rereg:' + a,
+                       monitor='user-functions')
+        # a user function with typed VARIADIC numbers where the position
+        # matters: every spelling of 0 in a middle slot is the number 0
+        import typing
+
+        @xl.register('VERIF_POLY')
+        @xl.validate_args
+        def poly(x: T.XlNumber, *coefficients: typing.Tuple[T.XlNumber]
+                 ) -> T.XlNumber:
+            total = 0.0
+            for k, c in enumerate(coefficients):
+                total += float(c) * float(x) ** k
+            return total
+        want_poly = 5.0 + 0.0 * 2 + 7.0 * 4          # coefficients 5, 0, 7
+        for sname, zero in (('0', 0), ('0.0', 0.0), ('text 0', '0'),
+                            ('FALSE', False), ('blank None', None),
+                            ('Blank', T.BLANK), ('Number 0', T.Number(0))):
+            got = monitors.call_outcome(F['VERIF_POLY'], 2, 5, zero, 7)
+            ctx.event('user_function_cases')
+            ctx.case(('user-function-variadic', sname))
+            if not same(got, ('value', ('num', want_poly))):
+                report(f'VERIF_POLY(2, 5, {zero!r}, 7) -> {got}, expected '
+                       f'{want_poly} (the zero spelt as {sname})',
+                       {'function': 'VERIF_POLY', 'zero': repr(zero),
+                        'observed': got}, group='user-variadic:' + sname,
+                       monitor='user-functions')
+        evp = Evaluator(subject.compile_dict(
+            {'A1': 5, 'A3': 7, 'B1': '=VERIF_POLY(2,A1,A2,A3)',
+             'B2': '=VERIF_POLY(2,A1,0,A3)', 'B3': '=VERIF_POLY(2,A1,FALSE,A3)'}))
+        for a in ('B1', 'B2', 'B3'):
+            got = subject.outcome_of(lambda: evp.evaluate('Sheet1!' + a))
+            ctx.event('user_function_cases')
+            ctx.case(('user-function-variadic-formula', a))
+            if not same(got, ('value', ('num', want_poly))):
+                report(f'user function with variadic numbers, cell {a} -> '
+                       f'{got}, expected {want_poly} (A2 is empty)',
+                       {'cell': a, 'observed': got},
+                       group='user-variadic-formula:' + a,
                        monitor='user-functions')
         xl.FUNCTIONS['VERIF_TRIPLE'] = VERIF_TRIPLE
         for spelled, want in ((2, 6.0), ('2', 6.0), (True, 3.0), (None, 0.0),
